@@ -141,6 +141,54 @@ TWINS = [
     _t("union-augmented", "accumulate dependencies with |= instead of x = x | y",
        [{"file": LC, "old": "self._depends_on = self._depends_on | other",
          "new": "self._depends_on |= other"}]),
+    # ---- benign feature-style changes --------------------------------------------
+    _t("new-c99-function-everywhere",
+       "a new element-wise function (log2) added consistently: front end, raiser table",
+       [{"file": "pytato/cmath.py",
+         "old": "def log10(x: ArrayOrScalarT) -> ArrayOrScalarT:\n"
+                "    return _apply_elem_wise_func((x,), \"log10\")\n",
+         "new": "def log10(x: ArrayOrScalarT) -> ArrayOrScalarT:\n"
+                "    return _apply_elem_wise_func((x,), \"log10\")\n\n\n"
+                "def log2(x: ArrayOrScalarT) -> ArrayOrScalarT:\n"
+                "    return _apply_elem_wise_func((x,), \"log2\")\n"},
+        {"file": "pytato/raising.py",
+         "old": "\"sinh\", \"cosh\", \"tanh\", \"exp\", \"log\", \"log10\", \"isnan\",",
+         "new": "\"sinh\", \"cosh\", \"tanh\", \"exp\", \"log\", \"log10\", \"log2\", \"isnan\","}]),
+    _t("new-copy-mapper-subclass",
+       "a new CopyMapper subclass that overrides one handler and delegates to super()",
+       [{"file": "pytato/transform/__init__.py",
+         "old": "# {{{ CombineMapper\n",
+         "new": "class _TracingCopyMapper(CopyMapper):\n"
+                "    \"\"\"Copies and counts the rolls it sees.\"\"\"\n"
+                "    def __init__(self) -> None:\n"
+                "        super().__init__()\n"
+                "        self.nrolls = 0\n\n"
+                "    def map_roll(self, expr: Roll) -> Array:\n"
+                "        self.nrolls += 1\n"
+                "        return super().map_roll(expr)\n\n\n"
+                "# {{{ CombineMapper\n"}]),
+    _t("helper-extracted-in-copy-mapper",
+       "the body of CopyMapper.map_roll moved into a helper method it calls",
+       [{"file": "pytato/transform/__init__.py",
+         "old": "    def map_roll(self, expr: Roll) -> Array:\n"
+                "        new_ary = _verify_is_array(self.rec(expr.array))\n"
+                "        return expr.replace_if_different(array=new_ary)\n",
+         "new": "    def _copy_with_new_array(self, expr: Roll) -> Array:\n"
+                "        new_ary = _verify_is_array(self.rec(expr.array))\n"
+                "        return expr.replace_if_different(array=new_ary)\n\n"
+                "    def map_roll(self, expr: Roll) -> Array:\n"
+                "        return self._copy_with_new_array(expr)\n"}]),
+    _t("messages-and-asserts",
+       "error messages reworded, an assertion and a logging call added",
+       [{"file": "pytato/array.py",
+         "old": "        raise ValueError(\"need at least one array to stack\")\n\n"
+                "    def shape_except_axis",
+         "new": "        raise ValueError(\"concatenate() needs at least one array\")\n\n"
+                "    assert isinstance(axis, int)\n\n"
+                "    def shape_except_axis"},
+        {"file": "pytato/utils.py",
+         "old": "        raise ValueError(\"slice step cannot be zero\")\n",
+         "new": "        raise ValueError(\"a slice must have a non-zero step\")\n"}]),
     # ---- whole-package rewrites ------------------------------------------------
     _t("unparse-everything",
        "every module replaced by ast.unparse of itself: comments gone, all line "
